@@ -14,7 +14,7 @@ use serde_json::json;
 use crate::common::violation;
 
 pub fn tmp_dir() -> PathBuf {
-    let d = PathBuf::from(report::verif_root()).join("mc/target/tmp");
+    let d = std::env::current_exe().ok().and_then(|e| e.parent().map(|p| p.join("../tmp"))).unwrap_or_else(|| PathBuf::from(report::verif_root()).join("mc/target/tmp"));
     let _ = std::fs::create_dir_all(&d);
     d
 }
